@@ -1229,11 +1229,13 @@ MHD_websocket_decode (struct MHD_WebSocketStream *ws,
               {
                 /* The first two bytes of the close frame are binary content and */
                 /* must be skipped in the UTF-8 check */
+                utf8_error_offset = 2 - utf8_start;
                 utf8_start = 2;
-                utf8_error_offset = 2;
               }
               decode_payload_utf8 = decode_payload + utf8_start;
-              bytes_to_check      = bytes_to_take - utf8_start;
+              /* check only what has been received by this call; the bytes */
+              /* before utf8_start have been checked by previous calls */
+              bytes_to_check      = ws->payload_index - utf8_start;
             }
             size_t utf8_check_offset = 0;
             int utf8_result = MHD_websocket_check_utf8 (decode_payload_utf8,
@@ -1243,7 +1245,10 @@ MHD_websocket_decode (struct MHD_WebSocketStream *ws,
             if (MHD_WebSocket_UTF8Result_Invalid != utf8_result)
             {
               /* memorize current validity check step to continue later */
-              ws->data_utf8_step = utf8_step;
+              if (MHD_WebSocket_DecodeStep_PayloadOfDataFrame == ws->decode_step)
+                ws->data_utf8_step = (char) utf8_step;
+              else
+                ws->control_utf8_step = (char) utf8_step;
             }
             else
             {
@@ -1418,6 +1423,8 @@ MHD_websocket_decode_header_complete (struct MHD_WebSocketStream *ws,
         new_buf[new_size_total] = 0;
       }
       ws->control_payload = new_buf;
+      /* the UTF-8 check of a close reason starts anew with every frame */
+      ws->control_utf8_step = MHD_WEBSOCKET_UTF8STEP_NORMAL;
     }
     ws->decode_step = MHD_WebSocket_DecodeStep_PayloadOfControlFrame;
     break;
